@@ -91,18 +91,58 @@ def generate(api):
     api.grab(body, r"let abs = n\.unsigned_abs\(\);\s*let digits = num_digits_u128\(abs\);", rel, "digits of |n|")
     api.grab(body, r"_ => return None,", rel, "too many digits => None")
     api.grab(body, r"i64::try_from\(secs\)\.ok\(\)", rel, "i64::try_from")
+    # Every arm of `match digits { … }` must be understood; anything else is a broken tie.
+    mm = api.grab(body, r"let secs = match digits \{(.*?)\n\s*\};", rel, "match digits { … }", re.S)
+    arms_txt = mm.group(1)
+    n_arrows = len(re.findall(r"=>", re.sub(r"//[^\n]*", "", arms_txt)))
     bands = []
-    for bm in re.finditer(r"(\d+)\.\.=(\d+)\s*=>\s*n(?:\s*/\s*([0-9_]+))?\s*,", body):
-        bands.append((int(bm.group(1)), int(bm.group(2)), api.num(bm.group(3)) if bm.group(3) else 1))
+    saw_default = False
+    for line in arms_txt.splitlines():
+        line = re.sub(r"//.*$", "", line).strip()
+        if not line:
+            continue
+        if re.fullmatch(r"_\s*=>\s*return None\s*,", line):
+            saw_default = True
+            continue
+        bm = re.fullmatch(r"(\d+)\.\.=(\d+)\s*=>\s*(.+?)\s*,", line)
+        if not bm:
+            raise api.Missing(f"{rel}: unexpected line in normalize_integer_epoch's match: {line!r}")
+        lo, hi, expr = int(bm.group(1)), int(bm.group(2)), bm.group(3)
+        if expr == "n":
+            bands.append((lo, hi, 1, "ident"))                     # seconds: the value itself
+            continue
+        em = re.fullmatch(r"n\s*/\s*([0-9_]+)", expr)
+        if em:
+            bands.append((lo, hi, api.num(em.group(1)), "trunc"))   # i128 `/`: toward zero
+            continue
+        em = re.fullmatch(r"n\.div_euclid\(([0-9_]+)\)", expr)
+        if em:
+            bands.append((lo, hi, api.num(em.group(1)), "floor"))   # div_euclid, positive divisor: floor
+            continue
+        raise api.Missing(f"{rel}: arm {lo}..={hi} has an expression the model cannot express: {expr!r}")
+    if not saw_default:
+        raise api.Missing(f"{rel}: normalize_integer_epoch's match has no `_ => return None` arm")
+    if len(bands) + 1 != n_arrows:
+        raise api.Missing(f"{rel}: parsed {len(bands)} band arms + default but the match has {n_arrows} arms")
     if len(bands) < 1:
         raise api.Missing(f"{rel}: no digit bands found")
-    for (a, b, _), (c, _, _) in zip(bands, bands[1:]):
+    for (a, b, d, _) in bands:
+        if a > b or d < 1:
+            raise api.Missing(f"{rel}: malformed band {(a, b, d)}")
+    for (a, b, _, _), (c, _, _, _) in zip(bands, bands[1:]):
         if c != b + 1:
             raise api.Missing(f"{rel}: digit bands not contiguous: {bands}")
     if bands[0][0] != 0:
         raise api.Missing(f"{rel}: first digit band does not start at 0")
-    emit(f"-- {rel}: normalize_integer_epoch digit bands (lo, hi, divisor); more digits => None")
-    emit("def epochBands : List (Nat × Nat × Nat) := [" + ", ".join(f"({a}, {b}, {d})" for a, b, d in bands) + "]")
+    emit(f"-- {rel}: normalize_integer_epoch: how each digit band turns the integer into seconds")
+    emit("inductive DivMode where")
+    emit("  | ident   -- `n`: already seconds")
+    emit("  | trunc   -- `n / d` on i128: rounds toward zero")
+    emit("  | floor   -- `n.div_euclid(d)`, d > 0: rounds toward minus infinity")
+    emit("  deriving DecidableEq, Repr")
+    emit("")
+    emit("-- (lo, hi, divisor, mode); more digits than the last band => None")
+    emit("def epochBands : List (Nat × Nat × Nat × DivMode) := [" + ", ".join(f"({a}, {b}, {d}, .{m})" for a, b, d, m in bands) + "]")
     # order of attempts for strings
     api.grab(t, r"let s = input\.trim\(\);\s*// Try RFC3339/ISO-8601 first\s*if let Ok\(dt\) = DateTime::parse_from_rfc3339\(s\)", rel, "string: trim then rfc3339", re.S)
     api.grab(t, r"NaiveDate::parse_from_str\(s, \"%Y-%m-%d\"\)", rel, "string: date-only second")
